@@ -219,11 +219,17 @@ func (e *APIEstablisher) addLabels(objs []runtime.Object, parent v1.PackageRevis
 
 func (e *APIEstablisher) validate(ctx context.Context, objs []runtime.Object, parent v1.PackageRevision, control bool) (allObjs []currentDesired, err error) { //nolint:gocognit // TODO(negz): Refactor this to break up complexity.
 	var webhookTLSCert []byte
-	if parentWithRuntime, ok := parent.(v1.PackageRevisionWithRuntime); ok && control {
-		webhookTLSCert, err = e.getWebhookTLSCert(ctx, parentWithRuntime)
-		if err != nil {
-			return nil, err
+	renameWebhooks := false
+	if parentWithRuntime, ok := parent.(v1.PackageRevisionWithRuntime); ok {
+		if control {
+			webhookTLSCert, err = e.getWebhookTLSCert(ctx, parentWithRuntime)
+			if err != nil {
+				return nil, err
+			}
 		}
+		// A revision with a TLS server secret installs its webhook
+		// configurations under a name derived from its package.
+		renameWebhooks = parentWithRuntime.GetTLSServerSecretName() != nil
 	}
 
 	g, ctx := errgroup.WithContext(ctx)
@@ -242,6 +248,12 @@ func (e *APIEstablisher) validate(ctx context.Context, objs []runtime.Object, pa
 				if err := e.enrichControlledResource(res, webhookTLSCert, parent); err != nil {
 					return err
 				}
+			} else if renameWebhooks {
+				// We don't control the object, but we must look for it under the
+				// name it was established with while we did - not the static
+				// name it has in the package. Otherwise we'd never find it to
+				// give up control of it.
+				setWebhookConfigurationName(res, parent)
 			}
 
 			// Make a copy of the desired object to be populated with existing
@@ -296,6 +308,21 @@ func (e *APIEstablisher) validate(ctx context.Context, objs []runtime.Object, pa
 		allObjs = append(allObjs, obj)
 	}
 	return allObjs, nil
+}
+
+// setWebhookConfigurationName sets the name of a webhook configuration to the
+// name derived from the parent's package. Other objects are left alone.
+func setWebhookConfigurationName(res runtime.Object, parent v1.PackageRevision) {
+	pkgRef, ok := GetPackageOwnerReference(parent)
+	if !ok {
+		return
+	}
+	switch conf := res.(type) {
+	case *admv1.ValidatingWebhookConfiguration:
+		conf.SetName(fmt.Sprintf("crossplane-%s-%s", strings.ToLower(pkgRef.Kind), pkgRef.Name))
+	case *admv1.MutatingWebhookConfiguration:
+		conf.SetName(fmt.Sprintf("crossplane-%s-%s", strings.ToLower(pkgRef.Kind), pkgRef.Name))
+	}
 }
 
 func (e *APIEstablisher) enrichControlledResource(res runtime.Object, webhookTLSCert []byte, parent v1.PackageRevision) error { //nolint:gocognit // just a switch
